@@ -11,7 +11,9 @@ import NitroVerif.Gen.Guards
       OPEN_CAS s rc    fixed code: CAS(refs s, rc, rc+1) — success ⇒ return true, failure ⇒ OPEN_LOAD s
                        (`fixedOpen = false`: the original test-then-add — unconditional increment, return true)
       CLOSE_DEC s      v := refs s − 1 stored;  `Gen.closeRetire v` ⇒ CLOSE_RETIRE s;  else return
-      CLOSE_RETIRE s   delete s from the live list, insert s into the dead list (one step, as in PROTOCOL.md)
+      CLOSE_RETIRE s   `snapshots.Delete`: delete s from the live list  → CLOSE_RETIRE2 s
+      CLOSE_RETIRE2 s  `gcsnapshots.Insert`: insert s into the dead list (ghost `retired`++)  → CLOSE_GC
+                       (between the two steps the snapshot is in neither list)
       CLOSE_GC         call GC()  → GC_TRY_LOCK
       GC_TRY_LOCK      CAS(isGCRunning,0,1) — failure ⇒ return;  success ⇒ COLLECT_READ
       COLLECT_READ     dead list empty, or `Gen.gcStop head.sn lastGCSn` ⇒ GC_UNLOCK;  else COLLECT_SEND head.sn
@@ -62,6 +64,7 @@ inductive PC where
   | openCas (s : Nat) (rc : Int)
   | closeDec (s : Nat)
   | closeRetire (s : Nat)
+  | closeRetire2 (s : Nat)
   | closeGC
   | gcTryLock
   | collectRead
@@ -167,9 +170,11 @@ def step (cfg : Cfg) (st : St) (i : Nat) (a : Act) : Option (St × Ev) :=
         if Gen.closeRetire v then some (setT st1 i (.closeRetire s), .parked)
         else some (setT st1 i .idle, .ret)
     | .step _, .closeRetire s =>
+        some (setT { st with live := st.live.erase s } i (.closeRetire2 s), .parked)
+    | .step _, .closeRetire2 s =>
         let x := getS st s
         let st1 := setS st s { x with retired := x.retired + 1 }
-        some (setT { st1 with live := st.live.erase s, dead := dinsert s st.dead } i .closeGC, .parked)
+        some (setT { st1 with dead := dinsert s st.dead } i .closeGC, .parked)
     | .step _, .closeGC => some (setT st i .gcTryLock, .parked)
     | .step _, .gcTryLock =>
         if st.flag then some (setT st i .idle, .ret)
@@ -234,6 +239,7 @@ def pointName : PC → Option String
   | .openCas _ _ => some "OPEN_CAS"
   | .closeDec _ => some "CLOSE_DEC"
   | .closeRetire _ => some "CLOSE_RETIRE"
+  | .closeRetire2 _ => some "CLOSE_RETIRE2"
   | .closeGC => some "CLOSE_GC"
   | .gcTryLock => some "GC_TRY_LOCK"
   | .collectRead => some "COLLECT_READ"
